@@ -104,6 +104,18 @@ let () =
            (* model of the boundary-checking operations *)
            let before = !prev in
            let len = List.length before in
+           (* retain with a panicking predicate: the loop of string.rs at buffer level (StringRetain.v) *)
+           (match op with
+            | ["retain"; script] when String.contains script '2' ->
+              let answers = List.filter_map (fun c -> if c = '1' then Some Keep else if c = '0' then Some Del else if c = '2' then Some Boom0 else None)
+                  (List.init (String.length script) (String.get script)) in
+              let (text, panicked) = retain_run before answers in
+              incr model_ops;
+              if panicked <> (res = "panic") then
+                report_mismatch ~field:"retain_panics" ~model:(string_of_bool panicked) ~impl:res
+              else if hex_of_bytes text <> bytes then
+                report_mismatch ~field:"retain_bytes_after_unwind" ~model:(hex_of_bytes text) ~impl:bytes
+            | _ -> ());
            let expect =
              match op with
              | ["pop"] -> Some (Some (fst (s_pop before)))
